@@ -517,15 +517,16 @@ func c17Num(id uint32) string { return strconv.FormatUint(uint64(id), 10) }
 // ---------- replay input ----------
 
 type c17In struct {
-	Part     string    `json:"part"`
-	WireMode *uint32   `json:"wire_mode,omitempty"`
-	OsMode   *uint32   `json:"os_mode,omitempty"`
-	Kind     string    `json:"kind,omitempty"`
-	Perm     *uint32   `json:"perm,omitempty"`
-	Request  string    `json:"request,omitempty"`
-	Shape    *c17Shape `json:"shape,omitempty"`
-	BV       *c17BV    `json:"bv,omitempty"`   // part "bv" (c17d.go)
-	Pair     *c17Pair  `json:"pair,omitempty"` // part "pair" (c17e.go)
+	Part     string       `json:"part"`
+	WireMode *uint32      `json:"wire_mode,omitempty"`
+	OsMode   *uint32      `json:"os_mode,omitempty"`
+	Kind     string       `json:"kind,omitempty"`
+	Perm     *uint32      `json:"perm,omitempty"`
+	Request  string       `json:"request,omitempty"`
+	Shape    *c17Shape    `json:"shape,omitempty"`
+	BV       *c17BV       `json:"bv,omitempty"`   // part "bv" (c17d.go)
+	Pair     *c17Pair     `json:"pair,omitempty"` // part "pair" (c17e.go)
+	IDs      *c17IDScript `json:"ids,omitempty"`  // part "ids" (c17f.go)
 }
 
 func u32p(v uint32) *uint32 { return &v }
@@ -1086,6 +1087,8 @@ func checkC17Listings(c *lib.Ctx) {
 	checkC17RSList(c, nil)
 	checkC17OSDir(c, "", nil)
 	checkC17RSShapes(c, nil)
+	checkC17IDs(c, nil)
+	defer func() { c.R.Rule += c17IDRule }()
 	c.R.Rule += "; listings: FileMode.String over all 65536 wire mode words (+ random 32-bit words) against the POSIX ls rules; runLs (hook) and raw READDIR of a real request server over 8 os types x 4096 permission/special combinations; real directories with every creatable kind x 4096 modes (owners, sizes, link counts, ages varied) through the os-backed server: attrs vs lstat(2), long-name columns vs the attrs of the same entry; request-server FileInfo shapes (Sys nil/Stat_t/FileStat/other/real x FileInfoUidGid x FileInfoExtendedData x name lookup x value variants) through STAT/LSTAT/FSTAT/READDIR against the documented precedence"
 }
 
@@ -1115,6 +1118,11 @@ func c17Replay(c *lib.Ctx) bool {
 			return false
 		}
 		checkC17Pairs(c, in.Pair)
+	case "ids":
+		if in.IDs == nil {
+			return false
+		}
+		checkC17IDs(c, in.IDs)
 	default:
 		return false
 	}
